@@ -9,21 +9,21 @@ import (
 
 // Anchors of the retry client, resolved by role with the name as a hint.
 type retryAnchors struct {
-	RC          *types.Named
-	RetryQueue  *types.Var // field of type []retryFn
-	TaskQueue   *types.Var // field of type []func(context.Context, *BaseClient)
-	NewRetry    *types.Var // bool flag set when a request failed (newRetryByError)
-	SubEst      *types.Var // field of type subscriptions
-	ChTask      *types.Var
-	ChConnErr   *types.Var
-	Cli         *types.Var
-	Handler     *types.Var
-	Mu          *types.Var
-	PushTask    *ssa.Function
-	ReqCtx      *ssa.Function
-	WithReqCtx  *ssa.Function
-	OnError     *ssa.Function
-	problems    []string
+	RC         *types.Named
+	RetryQueue *types.Var // field of type []retryFn
+	TaskQueue  *types.Var // field of type []func(context.Context, *BaseClient)
+	NewRetry   *types.Var // bool flag set when a request failed (newRetryByError)
+	SubEst     *types.Var // field of type subscriptions
+	ChTask     *types.Var
+	ChConnErr  *types.Var
+	Cli        *types.Var
+	Handler    *types.Var
+	Mu         *types.Var
+	PushTask   *ssa.Function
+	ReqCtx     *ssa.Function
+	WithReqCtx *ssa.Function
+	OnError    *ssa.Function
+	problems   []string
 }
 
 func (c *Ctx) retryAnchors() *retryAnchors {
@@ -44,17 +44,17 @@ func (c *Ctx) retryAnchors() *retryAnchors {
 			a.TaskQueue = f
 		case ts == "subscriptions":
 			a.SubEst = f
-		case f.Name() == "newRetryByError":
+		case f.Name() == aliasField("RetryClient", "newRetryByError"):
 			a.NewRetry = f
-		case f.Name() == "chTask":
+		case f.Name() == aliasField("RetryClient", "chTask"):
 			a.ChTask = f
-		case f.Name() == "chConnectErr":
+		case f.Name() == aliasField("RetryClient", "chConnectErr"):
 			a.ChConnErr = f
 		case ts == "*BaseClient":
 			a.Cli = f
 		case ts == "Handler":
 			a.Handler = f
-		case f.Name() == "mu":
+		case f.Name() == aliasField("RetryClient", "mu"):
 			a.Mu = f
 		}
 	}
